@@ -84,17 +84,22 @@ Section Sess.
   Theorem records_any_stream o next uri pieces P bs ef :
     let recs := session_records o next uri pieces P (mkConn bs ef) in
     recs = [req_record next uri pieces]
-    \/ exists block tail, recs = [req_record next uri pieces; resp_record next uri block] /\ bs = block ++ tail.
+    \/ exists block tail, recs = [req_record next uri pieces; resp_record next uri block] /\ bs = block ++ tail
+                          /\ match WarcSession.session_conn zst zinit zstep zeof zfl o P (mkConn bs ef) with
+                             | Some c1 => pending c1 = tail        (* still unread on the open connection *)
+                             | None => True                        (* wpull closed the connection: discarded *)
+                             end.
   Proof.
-    cbv zeta. rewrite session_records_shape. unfold read_response.
+    cbv zeta. rewrite session_records_shape. unfold WarcSession.session_conn, read_response.
     destruct (read_response_loop _ _) as [e|r s1] eqn:E; [now left|].
     assert (Ho : opened bs (mkSt (mkConn bs ef) [] false)) by (split; reflexivity).
     destruct (read_response_opened bs _ _ _ _ Ho E) as [Hc E1].
     destruct (read_body o P r (mkSt (cn s1) [] (closed s1))) as [e|a s2] eqn:E2; [now left|].
     right. rewrite Hc in E2.
     assert (Ho2 : opened (pending (cn s1)) (mkSt (cn s1) [] false)) by (split; reflexivity).
-    destruct (read_body_accounted zst zinit zstep zeof zfl o _ P r _ a s2 Ho2 E2) as (tail & E3 & _).
-    exists (recd s1 ++ recd s2), tail. split; [reflexivity|]. rewrite E1, E3. now rewrite app_assoc.
+    destruct (read_body_accounted zst zinit zstep zeof zfl o _ P r _ a s2 Ho2 E2) as (tail & E3 & Hopen & _).
+    exists (recd s1 ++ recd s2), tail. split; [reflexivity|]. split; [rewrite E1, E3; now rewrite app_assoc|].
+    destruct (closed s2); [exact I|]. now apply Hopen.
   Qed.
 
   (* (c) the records do not depend on how the stream is cut into reads *)
